@@ -34,7 +34,9 @@ def violations (sch : Schema) (ents : Map Id Ent) (id : Id) (e : Ent) : List Err
   (if sch.regName = true ∧ e.name = [] then [Err.nullNotAllowed] else []) ++
   (if vName sch e ≠ [] ∧ heldByOther (vName sch) ents id (vName sch e) = true then [Err.dup] else []) ++
   (if vAlias sch e ≠ [] ∧ heldByOther (vAlias sch) ents id (vAlias sch e) = true then [Err.dup] else []) ++
-  (if [] ∈ vRoles sch e then [Err.other] else [])
+  (if [] ∈ vRoles sch e then [Err.other] else []) ++
+  -- an indexed unique value is the key of its index entry: it must fit bbolt's key limit
+  (if (vName sch e).length > maxKeySize ∨ (vAlias sch e).length > maxKeySize then [Err.other] else [])
 
 /-- store the entity `e` under `id` unless that breaks a constraint; the child data becomes `x`
     (`none`: unchanged) -/
